@@ -2,9 +2,13 @@ import RV.Proofs.Boundary
 import RV.Proofs.Tree
 import RV.Proofs.TreeUpdate
 import RV.Proofs.TreeTerm
+import RV.Proofs.TreeArrRoot
+import RV.Proofs.Shear
 import Mathlib.Algebra.Order.Field.Rat
 import Mathlib.Tactic.NormNum
 import Mathlib.Tactic.IntervalCases
+import Mathlib.Data.Rat.Floor
+import Mathlib.Tactic.Positivity
 /-
   C15 — boundary conditions and the spatial tree keep every particle accounted for.
 
@@ -25,7 +29,7 @@ set_option linter.unusedSectionVars false
 set_option linter.unusedVariables false
 set_option linter.unusedSimpArgs false
 namespace RV.C15
-open RV RV.Boundary RV.Tree
+open RV RV.Boundary RV.Tree RV.TreeArr
 
 variable {K : Type} [Field K] [LinearOrder K] [IsStrictOrderedRing K]
 
@@ -141,6 +145,39 @@ theorem c15_shear_particle (bx bY bz op1 om1 dv S : K) (fuel : Nat) (p q : P K)
           · simp only []; rw [b3, a3]; push_cast; ring
           · simp only []; rw [hy, b2, a2, ha, hb]; push_cast; ring
           · simp only []; rw [hz, b4, a4]
+
+/-- REB_BOUNDARY_SHEAR over the whole particle array with `fmod` specified as in C99 (`FmodSpec`: `a - q·b`, integer `q`,
+    `|result| < |b|`, sign of `a` — no free quotient parameter): N is unchanged; every particle ends inside the box;
+    `x` moved by `n` box lengths, `vy` by the same `n` times `(3/2)Ω Lx`, `y` by `n·(3/2)Ω Lx·t` plus whole `Ly`,
+    `z` by whole `Lz`. -/
+theorem c15_shear (fmod : K → K → K) (hf : FmodSpec fmod) (omega t bx bY bz : K) (hY : bY ≠ 0) (fuel : Nat)
+    (ps ps' : List (P K)) (h : shear fmod omega t bx bY bz fuel ps = some ps') :
+    ps'.length = ps.length ∧
+    List.Forall₂ (fun p q =>
+      (-bx / 2 ≤ q.x ∧ q.x ≤ bx / 2) ∧ (-bY / 2 ≤ q.y ∧ q.y ≤ bY / 2) ∧ (-bz / 2 ≤ q.z ∧ q.z ≤ bz / 2) ∧
+      ∃ n k m : Int, q.x = p.x - n * bx ∧ q.vy = p.vy + n * (3 / 2 * omega * bx) ∧
+        q.y = p.y + n * (3 / 2 * omega * bx * t) + k * bY ∧ q.z = p.z - m * bz) ps ps' := by
+  obtain ⟨o1, o2, o3⟩ := offsets_cong fmod hf omega t bx bY hY
+  unfold shear at h
+  have hf2 := mapOpt_forall₂ _ _ _ h
+  refine ⟨hf2.length_eq.symm, hf2.imp ?_⟩
+  intro p q hpq
+  have := c15_shear_particle bx bY bz _ _ _ (3 / 2 * omega * bx * t) fuel p q hpq o1 o2
+  simpa [shearOffsets] using this
+
+/-- … and it returns: with `FmodSpec` the offsets are smaller than `2·Ly`, so fuel `F ≥ kx, ky + 4·kx, kz` suffices for
+    particles within `kx, ky, kz` box lengths of the box. -/
+theorem c15_shear_terminates (fmod : K → K → K) (hf : FmodSpec fmod) (omega t bx bY bz : K)
+    (hx : 0 < bx) (hY : 0 < bY) (hz : 0 < bz) (kx ky kz F : Nat) (hF1 : kx ≤ F) (hF2 : ky + 4 * kx ≤ F) (hF3 : kz ≤ F)
+    (ps : List (P K))
+    (hps : ∀ p ∈ ps, |p.x| ≤ bx / 2 + kx * bx ∧ |p.y| ≤ bY / 2 + ky * bY ∧ |p.z| ≤ bz / 2 + kz * bz) :
+    ∃ ps', shear fmod omega t bx bY bz F ps = some ps' := by
+  obtain ⟨b1, b2⟩ := offsets_bound fmod hf omega t bx bY hY
+  unfold shear
+  apply mapOpt_terminates
+  intro p hp
+  obtain ⟨h1, h2, h3⟩ := hps p hp
+  exact shear1_terminates bx bY bz _ _ _ hx hY hz b1 b2 kx ky kz F hF1 hF2 hF3 p h1 h2 h3
 
 /-! ## open boundary -/
 
@@ -306,15 +343,86 @@ theorem c15_update_sweep (ps : Nat → Pt K) (t : T K) (c : Cell K) (hgeo : Geo 
     WF ps false c (sweep ps t).1 ∧ List.Perm (leaves (sweep ps t).1 ++ (sweep ps t).2) (leaves t) :=
   sweep_spec ps t c hgeo
 
-/-- Partial (functional form of the update of one root cell whose particles stay inside it: sweep, then
-    re-insert; the C code re-inserts *during* the walk, renumbers by swap-with-last and moves particles between
-    root boxes — covered by correspondence and search only): the multiset of particles is preserved and
-    containment/counters are re-established.  The tie rule is not (a particle may have moved onto a face
-    of its cell). -/
+/-- Single root cell, indices kept (no particle array): sweep, then re-insert — the order of the repaired code — for
+    particles that stay in the root cell: the multiset of particles is preserved and containment/counters are
+    re-established; the tie rule is not (a particle may have moved onto a face of its cell).  Superseded by the
+    full-strength `c15_update_array` / `c15_update_forest` below (array renumbering, flagged particles, several root
+    boxes); kept because it is the statement about `Tree.update` used by the single-tree examples. -/
 theorem c15_update_partial (ps : Nat → Pt K) (fuel : Nat) (c : Cell K) (t t' : T K)
     (hgeo : Geo c t) (hin : ∀ q ∈ leaves t, In (ps q) c) (h : update ps fuel c t = .ok t') :
     WF ps false c t' ∧ List.Perm (leaves t') (leaves t) :=
   update_spec ps fuel c t t' hgeo hin h
+
+/-! ## tree update on (particle array, forest) — the repaired walk, array renumbering included -/
+
+/-- `reb_simulation_update_tree` as it is now (per root box the recursive walk with swap-with-last removal
+    `N--; particles[oldpos]=particles[N]; particles[oldpos].c->pt = oldpos`, eviction buffer, recount and derefinement;
+    then `reb_simulation_add` of the buffer in collection order), model `RV.TreeArr.updateA`.
+    Before: every root tree is geometrically sound in its root cell (positions arbitrary: the particles have moved),
+    the leaves of the forest hold every array index exactly once, and every particle not flagged for removal is in the
+    box, has an existing root box and lies in that root cell.  If the update returns (no coincident pair, enough fuel):
+    * the new array is, in this order, the survivors of the swap-removals followed by the evicted non-flagged particles
+      in pre-order of their old leaves (`evState … .arr ++ … .ev`);
+    * as a multiset it is the old array minus the flagged particles: nothing else is lost or duplicated;
+    * `ForestOK`: every root tree is well formed w.r.t. the NEW array (leaf cell contains its particle, `pt` counters,
+      ≥ 2 rule) and the leaves of the forest hold every index `0..N'-1` exactly once — i.e. `particles[i].c`, the leaf
+      storing `i`, exists and is unique for every `i`. -/
+theorem c15_update_array {α : Type} (pos : α → Pt K) (flagged inBox : α → Bool) (ri : Pt K → Nat) (rc : Nat → Cell K)
+    (fuel : Nat) (forest0 : List (T K)) (arr0 : List α) (forest1 : List (T K)) (arr1 : List α)
+    (hgeo : ∀ r (h : r < forest0.length), Geo (rc r) forest0[r])
+    (hbij : List.Perm (forest0.flatMap leaves) (List.range arr0.length))
+    (hbox : ∀ p ∈ arr0, flagged p = false →
+      inBox p = true ∧ ri (pos p) < forest0.length ∧ In (pos p) (rc (ri (pos p))))
+    (h : updateA pos flagged inBox ri rc fuel forest0 arr0 = some (.ok (forest1, arr1))) :
+    arr1 = (evState flagged arr0 (forest0.flatMap fun t => (sweepP (keepOf pos flagged arr0) t).2)).arr ++
+           (evState flagged arr0 (forest0.flatMap fun t => (sweepP (keepOf pos flagged arr0) t).2)).ev ∧
+    List.Perm arr1 (arr0.filter (fun p => !flagged p)) ∧
+    forest1.length = forest0.length ∧
+    ForestOK (psOf pos arr1) rc forest1 arr1.length :=
+  updateA_spec pos flagged inBox ri rc fuel forest0 arr0 forest1 arr1 hgeo hbij hbox h
+
+/-- when the leaves hold every index exactly once, the walk never reads outside the particle array -/
+theorem c15_update_array_no_stale_index {α : Type} (pos : α → Pt K) (flagged inBox : α → Bool) (ri : Pt K → Nat)
+    (rc : Nat → Cell K) (fuel : Nat) (forest0 : List (T K)) (arr0 : List α)
+    (hbij : List.Perm (forest0.flatMap leaves) (List.range arr0.length)) :
+    updateA pos flagged inBox ri rc fuel forest0 arr0 ≠ none :=
+  updateA_ne_none pos flagged inBox ri rc fuel forest0 arr0 hbij
+
+/-- the renumbering invariant behind it: after evicting the original indices `E` (distinct, in any order) by
+    swap-with-last, a particle not evicted is found at its logged index, distinct particles at distinct indices, the
+    array shrank by `|E|`, the buffer holds the evicted non-flagged ones in order, and array ∪ evicted = original -/
+theorem c15_swap_renumbering {α : Type} (flagged : α → Bool) (arr0 : List α) (E : List Nat)
+    (hn : E.Nodup) (hb : ∀ e ∈ E, e < arr0.length) :
+    ArrInv flagged arr0 E (evState flagged arr0 E) :=
+  ArrInv_evState flagged arr0 E hn hb
+
+/-! ## the forest of root boxes -/
+
+/-- root-box rule as repaired (floor, clamp): with any `floor` satisfying `⌊x⌋ ≤ x < ⌊x⌋+1`, a particle inside the
+    closed box — faces included — gets a root box that exists and whose root cell contains it. -/
+theorem c15_root_box_contains (floor : K → Int) (hfl : ∀ x : K, (floor x : K) ≤ x ∧ x < (floor x : K) + 1)
+    (rs : K) (hrs : 0 < rs) (nx ny nz : Nat) (hx : 0 < nx) (hy : 0 < ny) (hz : 0 < nz) (p : Pt K)
+    (hin : inBoxPt rs nx ny nz p = true) :
+    rootIdx floor rs nx ny nz p < nx * ny * nz ∧
+    In p (rootCellOf rs nx ny nz (rootIdx floor rs nx ny nz p)) :=
+  root_contains floor hfl rs hrs nx ny nz hx hy hz p hin
+
+/-- the update of the whole forest with the code's own root-box rule: particles migrate between root boxes through
+    the re-insertion of `c15_update_array`; the only hypothesis on positions left is "not flagged ⇒ in the box". -/
+theorem c15_update_forest {α : Type} (floor : K → Int) (hfl : ∀ x : K, (floor x : K) ≤ x ∧ x < (floor x : K) + 1)
+    (rs : K) (hrs : 0 < rs) (nx ny nz : Nat) (hx : 0 < nx) (hy : 0 < ny) (hz : 0 < nz)
+    (pos : α → Pt K) (flagged : α → Bool) (fuel : Nat)
+    (forest0 : List (T K)) (arr0 : List α) (forest1 : List (T K)) (arr1 : List α)
+    (hlen : forest0.length = nx * ny * nz)
+    (hgeo : ∀ r (h : r < forest0.length), Geo (rootCellOf rs nx ny nz r) forest0[r])
+    (hbij : List.Perm (forest0.flatMap leaves) (List.range arr0.length))
+    (hbox : ∀ p ∈ arr0, flagged p = false → inBoxPt rs nx ny nz (pos p) = true)
+    (h : updateA pos flagged (fun a => inBoxPt rs nx ny nz (pos a)) (rootIdx floor rs nx ny nz)
+          (rootCellOf rs nx ny nz) fuel forest0 arr0 = some (.ok (forest1, arr1))) :
+    List.Perm arr1 (arr0.filter (fun p => !flagged p)) ∧
+    forest1.length = nx * ny * nz ∧
+    ForestOK (psOf pos arr1) (rootCellOf rs nx ny nz) forest1 arr1.length :=
+  updateA_forest floor hfl rs hrs nx ny nz hx hy hz pos flagged fuel forest0 arr0 forest1 arr1 hlen hgeo hbij hbox h
 
 /-! ## the hypotheses are satisfiable: concrete instances over ℚ -/
 
@@ -360,4 +468,102 @@ example : (match build exPs 10 exCell 3 with
 /-- separation hypothesis of `c15_insert_terminates`: particles 0 and 2 differ by 1/8 > 2/2^5 in x -/
 example : Sep (exPs 2) (exPs 0) exCell.w 5 := by
   left; simp [exPs, exCell]; norm_num [abs_of_neg]
+
+/-! forest update: two root boxes, one migration, one flagged particle, one octant change -/
+/-- two root boxes along x (`root_size 2`); (id, position) -/
+def exOld : List (Nat × Pt ℚ) :=
+  [(0, ⟨-3/2, 1/2, 1/2, 1⟩), (1, ⟨-1/2, -1/2, 1/2, 1⟩), (2, ⟨1/2, 1/2, 1/2, 1⟩), (3, ⟨3/2, -1/2, 1/4, 1⟩)]
+/-- after a step: 0 migrated to the other root box, 2 is flagged, 3 changed octant, 1 stayed -/
+def exNew : List (Nat × Pt ℚ) :=
+  [(0, ⟨1/2, -1/2, -1/2, 1⟩), (1, ⟨-1/2, -1/2, 1/2, 1⟩), (2, ⟨1/2, 1/2, 1/2, 1⟩), (3, ⟨3/2, 1/2, 1/4, 1⟩)]
+def exRi : Pt ℚ → Nat := rootIdx Rat.floor 2 2 1 1
+def exRc : Nat → Cell ℚ := rootCellOf 2 2 1 1
+def exIn : Nat × Pt ℚ → Bool := fun a => inBoxPt 2 2 1 1 a.2
+def exForest0 : List (T ℚ) :=
+  match exOld.foldlM (addOne (fun a => a.2) exIn exRi exRc 10) ([T.nil, T.nil], []) with
+  | .ok s => s.1
+  | .error _ => []
+
+
+example : exForest0.map leaves = [[0, 1], [2, 3]] := by decide +kernel
+/-- new array order `[1,0,3]` (ids): survivor of the swaps, then the evicted in pre-order; forest leaves renumbered -/
+example : (match updateA (fun a => a.2) (fun a => a.1 == 2) exIn exRi exRc 10 exForest0 exNew with
+    | some (.ok (f, a)) => (a.map (fun q : Nat × Pt ℚ => q.1), f.map leaves)
+    | _ => ([], [])) = ([1, 0, 3], [[0], [2, 1]]) := by decide +kernel
+/-- the floor hypothesis of `c15_root_box_contains` holds for the usual floor -/
+example : ∀ x : ℚ, ((⌊x⌋ : ℤ) : ℚ) ≤ x ∧ x < ((⌊x⌋ : ℤ) : ℚ) + 1 :=
+  fun x => ⟨Int.floor_le x, Int.lt_floor_add_one x⟩
+
+/-- C `fmod` on ℚ: quotient truncated towards zero -/
+def fmodQ (a b : ℚ) : ℚ := a - (if 0 ≤ a / b then (⌊a / b⌋ : ℤ) else (⌈a / b⌉ : ℤ)) * b
+
+/-- the hypothesis of `c15_shear` / `c15_shear_terminates` is satisfiable -/
+example : FmodSpec fmodQ := by
+  intro a b hb
+  unfold fmodQ
+  set r := a / b with hr
+  have har : a = r * b := by rw [hr]; field_simp
+  by_cases h0 : 0 ≤ r
+  · simp only [h0, if_true]
+    have f1 := Int.floor_le r
+    have f2 := Int.lt_floor_add_one r
+    set d := r - (⌊r⌋ : ℚ) with hd
+    have hd0 : 0 ≤ d := by linarith
+    have hd1 : d < 1 := by linarith
+    have he : a - (⌊r⌋ : ℚ) * b = d * b := by rw [har, hd]; ring
+    refine ⟨⟨⌊r⌋, rfl⟩, ?_, ?_, ?_⟩
+    · rw [he, abs_mul, abs_of_nonneg hd0]
+      have := abs_pos.mpr hb
+      nlinarith
+    · intro ha
+      rw [he]
+      rcases lt_or_gt_of_ne hb with hneg | hpos
+      · have : r * b ≤ 0 := mul_nonpos_of_nonneg_of_nonpos h0 (le_of_lt hneg)
+        have hr0 : r = 0 := by
+          have : a = 0 := le_antisymm (by rw [har]; exact this) ha
+          rw [hr, this]; simp
+        have : d = 0 := by rw [hd, hr0]; simp
+        rw [this]; simp
+      · positivity
+    · intro ha
+      rw [he]
+      rcases lt_or_gt_of_ne hb with hneg | hpos
+      · exact mul_nonpos_of_nonneg_of_nonpos hd0 (le_of_lt hneg)
+      · have : 0 ≤ r * b := mul_nonneg h0 (le_of_lt hpos)
+        have hr0 : r = 0 := by
+          have : a = 0 := le_antisymm ha (by rw [har]; exact this)
+          rw [hr, this]; simp
+        have : d = 0 := by rw [hd, hr0]; simp
+        rw [this]; simp
+  · simp only [h0, if_false]
+    have hneg : r < 0 := not_le.mp h0
+    have c1 := Int.le_ceil r
+    have c2 := Int.ceil_lt_add_one r
+    set d := (⌈r⌉ : ℚ) - r with hd
+    have hd0 : 0 ≤ d := by linarith
+    have hd1 : d < 1 := by linarith
+    have he : a - (⌈r⌉ : ℚ) * b = -(d * b) := by rw [har, hd]; ring
+    refine ⟨⟨⌈r⌉, rfl⟩, ?_, ?_, ?_⟩
+    · rw [he, abs_neg, abs_mul, abs_of_nonneg hd0]
+      have := abs_pos.mpr hb
+      nlinarith
+    · intro ha
+      rw [he]
+      rcases lt_or_gt_of_ne hb with hbn | hbp
+      · have : d * b ≤ 0 := mul_nonpos_of_nonneg_of_nonpos hd0 (le_of_lt hbn)
+        linarith
+      · exfalso
+        have : r * b < 0 := mul_neg_of_neg_of_pos hneg hbp
+        rw [← har] at this
+        linarith
+    · intro ha
+      rw [he]
+      rcases lt_or_gt_of_ne hb with hbn | hbp
+      · exfalso
+        have : 0 < r * b := mul_pos_of_neg_of_neg hneg hbn
+        rw [← har] at this
+        linarith
+      · have : 0 ≤ d * b := mul_nonneg hd0 (le_of_lt hbp)
+        linarith
+
 end RV.C15
